@@ -85,7 +85,7 @@ theorem nameOf_nameL {n : Name} (h : NameOK n = true) : nameOf (nameL n) = n := 
   simp only [NameOK, Bool.and_eq_true, decide_eq_true_eq] at h
   simp [nameOf, nameL, h.2]
 
-theorem NameOK.ident {n : Name} (h : NameOK n = true) : isIdent (nameL n) = true := by
+theorem nameOK_ident {n : Name} (h : NameOK n = true) : isIdent (nameL n) = true := by
   simp only [NameOK, Bool.and_eq_true] at h; exact h.1
 
 /-! ## lines of the form *identifier, blank, non-blank …* -/
@@ -377,5 +377,785 @@ theorem label?_wordc (hi : isIdent w = true) (hc : c ≠ ':') : label? (w ++ c :
   · rfl
 
 end wordc
+
+/-! ## the function-definition pattern on its printed line -/
+
+theorem moreArgsL_length (as : List Name) : as.length ≤ (moreArgsL as).length := by
+  induction as with
+  | nil => simp [moreArgsL]
+  | cons a as ih => simp [moreArgsL]; omega
+
+/-- what can follow the argument list: `...` or `)` -/
+def ArgsEnd (tail : Chars) : Prop := ∃ x xs, tail = x :: xs ∧ (x = '.' ∨ x = ')')
+
+theorem ArgsEnd.facts {tail : Chars} (h : ArgsEnd tail) :
+    lstripL tail = tail ∧ ident? tail = none ∧ tail.head?.all (fun x => !isWord x) = true ∧
+    (∀ r, lstripL tail ≠ ',' :: r) := by
+  obtain ⟨x, xs, rfl, hx | hx⟩ := h <;> subst hx <;>
+    simp [lstripL, List.dropWhile, ident?, show isSpace '.' = false from by decide, show isSpace ')' = false from by decide,
+      show isIdStart '.' = false from by decide, show isIdStart ')' = false from by decide,
+      show isWord '.' = false from by decide, show isWord ')' = false from by decide]
+
+theorem moreArgs_head (as : List Name) {tail : Chars} (h : ArgsEnd tail) :
+    (moreArgsL as ++ tail).head?.all (fun x => !isWord x) = true := by
+  cases as with
+  | nil => simpa [moreArgsL] using h.facts.2.2.1
+  | cons a as => simp [moreArgsL]; decide
+
+theorem argsLoop_print : ∀ (as : List Name) (fuel : Nat) (tail : Chars), as.length ≤ fuel →
+    (∀ a ∈ as, isIdent (nameL a) = true) → ArgsEnd tail →
+    argsLoop fuel (moreArgsL as ++ tail) = (as.map nameL, tail)
+  | [], 0, tail, _, _, _ => rfl
+  | [], fuel + 1, tail, _, _, ht => by
+      simp only [moreArgsL, List.nil_append, argsLoop, List.map_nil]
+      split
+      · rename_i r1 h; exact absurd h (ht.facts.2.2.2 r1)
+      · rfl
+  | a :: as, 0, _, h, _, _ => by simp at h
+  | a :: as, fuel + 1, tail, h, ha, ht => by
+      have hi := ha a (by simp)
+      obtain ⟨c, r, hn, hc, hw⟩ := isIdent_cases hi
+      have ih := argsLoop_print as fuel tail (by simpa using h) (fun x hx => ha x (List.mem_cons_of_mem _ hx)) ht
+      have e1 : lstripL (',' :: ' ' :: (nameL a ++ moreArgsL as) ++ tail) = ',' :: ' ' :: (nameL a ++ (moreArgsL as ++ tail)) := by
+        simp [lstripL, List.dropWhile, show isSpace ',' = false from by decide]
+      have e2 : lstripL (' ' :: (nameL a ++ (moreArgsL as ++ tail))) = nameL a ++ (moreArgsL as ++ tail) := by
+        rw [lstripL_sp, hn]; exact lstripL_cons_ns _ (idStart_not_space hc)
+      simp only [moreArgsL, argsLoop, e1, e2, ident?_append hi (moreArgs_head as ht), ih, List.map_cons]
+
+theorem argsEnd_tail (laa : Bool) : ArgsEnd (laaL laa ++ [')', ':']) := by
+  cases laa
+  · exact ⟨')', [':'], rfl, .inr rfl⟩
+  · exact ⟨'.', ['.', '.', ')', ':'], rfl, .inl rfl⟩
+
+/-- the part of the function pattern after the function name -/
+def funcTail (name : Chars) (isAsync : Bool) (r : Chars) : Option Shape :=
+  match lstripL r with
+  | '(' :: r =>
+    let r := lstripL r
+    let (args, r) := match ident? r with
+      | some (a, r') => let (as, r'') := argsLoop r'.length r'; (a :: as, r'')
+      | none => ([], r)
+    let (laa, r) := match keyword? "..." (lstripL r) with
+      | some r' => (true, r')
+      | none => (false, r)
+    match lstripL r with
+    | ')' :: r =>
+      match lstripL r with
+      | ':' :: r => if allSpace r then some (.funcBegin name args laa isAsync) else none
+      | _ => none
+    | _ => none
+  | _ => none
+
+theorem funcBegin?_eq (s : Chars) : funcBegin? s =
+    (match keyword? "function" (match keyword? "async" s with | some r => lstripL r | none => s) with
+     | none => none
+     | some r =>
+       match ws1? r with
+       | none => none
+       | some r =>
+         match ident? r with
+         | none => none
+         | some (name, r) => funcTail name (keyword? "async" s).isSome r) := by
+  unfold funcBegin? funcTail
+  cases keyword? "async" s <;> rfl
+
+theorem funcTail_print (n : Chars) (b : Bool) (args : List Name) (laa : Bool) (ha : ∀ a ∈ args, isIdent (nameL a) = true) :
+    funcTail n b ('(' :: (argsL args ++ (laaL laa ++ [')', ':']))) = some (.funcBegin n (args.map nameL) laa b) := by
+  have ht := argsEnd_tail laa
+  have hlaa : keyword? "..." (lstripL (laaL laa ++ [')', ':'])) = if laa then some [')', ':'] else none := by
+    cases laa <;> rfl
+  have hl1 : lstripL [')', ':'] = [')', ':'] := rfl
+  have hl2 : lstripL [':'] = [':'] := rfl
+  have hl3 : allSpace [] = true := rfl
+  unfold funcTail
+  simp only [lstripL_cons_ns _ (show isSpace '(' = false from by decide)]
+  cases args with
+  | nil =>
+    simp only [argsL, List.nil_append, ht.facts.1, ht.facts.2.1, List.map_nil, hlaa]
+    cases laa <;> rfl
+  | cons a as =>
+    have hi := ha a (by simp)
+    obtain ⟨c, r, hn, hc, hw⟩ := isIdent_cases hi
+    have e1 : lstripL (argsL (a :: as) ++ (laaL laa ++ [')', ':'])) = nameL a ++ (moreArgsL as ++ (laaL laa ++ [')', ':'])) := by
+      simp only [argsL, List.append_assoc]; rw [hn]; exact lstripL_cons_ns _ (idStart_not_space hc)
+    have h2 := argsLoop_print as (moreArgsL as ++ (laaL laa ++ [')', ':'])).length (laaL laa ++ [')', ':'])
+      (by have := moreArgsL_length as; simp; omega) (fun x hx => ha x (List.mem_cons_of_mem _ hx)) ht
+    simp only [e1, ident?_append hi (moreArgs_head as ht), h2, List.map_cons, hlaa]
+    cases laa <;> rfl
+
+theorem funcBegin?_print (n : Chars) (args : List Name) (laa isAsync : Bool) (hn : isIdent n = true)
+    (ha : ∀ a ∈ args, isIdent (nameL a) = true) :
+    funcBegin? (asyncL isAsync ++ ("function ".toList ++ (n ++ ('(' :: (argsL args ++
+        (laaL laa ++ [')', ':'])))))) = some (.funcBegin n (args.map nameL) laa isAsync) := by
+  obtain ⟨c, r, rfl, hc, hw⟩ := isIdent_cases hn
+  have hcs := idStart_not_space hc
+  have hid : ident? (c :: (r ++ '(' :: (argsL args ++ (laaL laa ++ [')', ':'])))) = some (c :: r, '(' :: (argsL args ++ (laaL laa ++ [')', ':']))) :=
+    ident?_append hn (by simp; decide)
+  have hX := fun b => funcTail_print (c :: r) b args laa ha
+  generalize '(' :: (argsL args ++ (laaL laa ++ [')', ':'])) = X at *
+  cases isAsync with
+  | false =>
+    show funcBegin? ('f' :: 'u' :: 'n' :: 'c' :: 't' :: 'i' :: 'o' :: 'n' :: ' ' :: c :: (r ++ X)) = _
+    have k1 : keyword? "async" ('f' :: 'u' :: 'n' :: 'c' :: 't' :: 'i' :: 'o' :: 'n' :: ' ' :: c :: (r ++ X)) = none := rfl
+    have k2 : keyword? "function" ('f' :: 'u' :: 'n' :: 'c' :: 't' :: 'i' :: 'o' :: 'n' :: ' ' :: c :: (r ++ X)) = some (' ' :: c :: (r ++ X)) := rfl
+    rw [funcBegin?_eq]
+    simp only [k1, k2, ws1?_sp_ns _ hcs, hid, hX, Option.isSome_none]
+  | true =>
+    show funcBegin? ('a' :: 's' :: 'y' :: 'n' :: 'c' :: ' ' :: 'f' :: 'u' :: 'n' :: 'c' :: 't' :: 'i' :: 'o' :: 'n' :: ' ' :: c :: (r ++ X)) = _
+    have k1 : keyword? "async" ('a' :: 's' :: 'y' :: 'n' :: 'c' :: ' ' :: 'f' :: 'u' :: 'n' :: 'c' :: 't' :: 'i' :: 'o' :: 'n' :: ' ' :: c :: (r ++ X)) = some (' ' :: 'f' :: 'u' :: 'n' :: 'c' :: 't' :: 'i' :: 'o' :: 'n' :: ' ' :: c :: (r ++ X)) := rfl
+    have k0 : lstripL (' ' :: 'f' :: 'u' :: 'n' :: 'c' :: 't' :: 'i' :: 'o' :: 'n' :: ' ' :: c :: (r ++ X)) = 'f' :: 'u' :: 'n' :: 'c' :: 't' :: 'i' :: 'o' :: 'n' :: ' ' :: c :: (r ++ X) := by
+      rw [lstripL_sp]; exact lstripL_cons_ns _ (by decide)
+    have k2 : keyword? "function" ('f' :: 'u' :: 'n' :: 'c' :: 't' :: 'i' :: 'o' :: 'n' :: ' ' :: c :: (r ++ X)) = some (' ' :: c :: (r ++ X)) := rfl
+    rw [funcBegin?_eq]
+    simp only [k1, k0, k2, ws1?_sp_ns _ hcs, hid, hX, Option.isSome_some]
+
+/-! ## each pattern on its printed line -/
+
+theorem assign?_print {n : Chars} {c : Char} (e : Chars) (hn : isIdent n = true) (hs : isSpace c = false) :
+    ∃ off, assign? (n ++ ' ' :: '=' :: ' ' :: c :: e) = some (.assign n off (c :: e)) := by
+  unfold assign?
+  rw [ident?_append hn (by simp; decide)]
+  have e1 : lstripL (' ' :: '=' :: ' ' :: c :: e) = '=' :: ' ' :: c :: e := by
+    rw [lstripL_sp]; exact lstripL_cons_ns _ (by decide)
+  have e2 : lstripL (' ' :: c :: e) = c :: e := by rw [lstripL_sp]; exact lstripL_cons_ns _ hs
+  simp only [e1, e2]
+  exact ⟨_, rfl⟩
+
+theorem label?_print {n : Chars} (hn : isIdent n = true) : label? (n ++ [':']) = some (.label n) := by
+  unfold label?
+  rw [ident?_append hn (by simp; decide)]
+  rfl
+
+theorem wsNameEnd?_print {n : Chars} (hn : isIdent n = true) : wsNameEnd? (' ' :: n) = some n := by
+  obtain ⟨c, r, rfl, hc, hw⟩ := isIdent_cases hn
+  have := ident?_append (rest := []) hn (by simp)
+  simp only [List.append_nil] at this
+  simp [wsNameEnd?, ws1?_sp_ns r (idStart_not_space hc), this, allSpace]
+
+theorem splitLastParen_print (e : Chars) {n : Chars} (hn : isIdent n = true) :
+    splitLastParen (e ++ ')' :: ' ' :: n) = some (e, ' ' :: n) := by
+  have hw : ∀ x ∈ (' ' :: n).reverse, (x != ')') = true := by
+    intro x hx
+    simp only [List.mem_reverse, List.mem_cons] at hx
+    rcases hx with rfl | hx
+    · decide
+    · have := isIdent_word hn x hx
+      cases h : x != ')' with
+      | true => rfl
+      | false => simp at h; subst h; exact absurd this (by decide)
+  have hrev : (e ++ ')' :: ' ' :: n).reverse = (' ' :: n).reverse ++ ')' :: e.reverse := by simp
+  obtain ⟨h1, h2⟩ := takeWhile_all (fun x => x != ')') (' ' :: n).reverse (')' :: e.reverse) hw (by simp)
+  unfold splitLastParen
+  simp only [hrev, h1, h2, List.reverse_reverse]
+
+theorem escapeUrl_spec : ∀ u : Chars, quotesEscaped (escapeUrl u) = true ∧ quotesEscaped ('\\' :: escapeUrl u) = true ∧
+    unescapeQuote (escapeUrl u) = u
+  | [] => by simp [escapeUrl, quotesEscaped, unescapeQuote]
+  | c :: r => by
+      obtain ⟨h1, h2, h3⟩ := escapeUrl_spec r
+      by_cases hb : c = '\\'
+      · subst hb
+        simp only [escapeUrl, true_or, if_true]
+        refine ⟨?_, ?_, ?_⟩
+        · rw [quotesEscaped]; exact h2
+          all_goals simp
+        · rw [quotesEscaped]
+          · rw [quotesEscaped]; exact h2
+            all_goals simp
+          all_goals simp
+        · simp [unescapeQuote, h3]
+      · by_cases hq : c = '\''
+        · subst hq
+          simp only [escapeUrl, or_true, if_true]
+          refine ⟨?_, ?_, ?_⟩
+          · simp [quotesEscaped, h1]
+          · rw [quotesEscaped]
+            · simp [quotesEscaped, h1]
+            all_goals simp
+          · simp [unescapeQuote, h3]
+        · simp only [escapeUrl, hb, hq, or_self, if_false]
+          refine ⟨?_, ?_, ?_⟩
+          · rw [quotesEscaped]; exact h1
+            all_goals simp [hb, hq]
+          · rw [quotesEscaped]
+            · rw [quotesEscaped]; exact h1
+              all_goals simp [hb, hq]
+            all_goals simp [hq]
+          · rw [unescapeQuote]; rw [h3]
+            all_goals simp [hb, hq]
+
+/-! ## the cascade on each printed line -/
+
+theorem shapeS_assign {n : Chars} {c : Char} (e : Chars) (hn : isIdent n = true) (hs : isSpace c = false) :
+    ∃ off, shapeS (n ++ ' ' :: '=' :: ' ' :: c :: e) = .assign n off (c :: e) := by
+  obtain ⟨off, h⟩ := assign?_print e hn hs
+  refine ⟨off, ?_⟩
+  unfold shapeS
+  rw [h]; rfl
+
+theorem shapeS_func (n : Chars) (args : List Name) (laa isAsync : Bool) (hn : isIdent n = true)
+    (ha : ∀ a ∈ args, isIdent (nameL a) = true) :
+    shapeS (asyncL isAsync ++ ("function ".toList ++ (n ++ ('(' :: (argsL args ++
+        (laaL laa ++ [')', ':'])))))) = .funcBegin n (args.map nameL) laa isAsync := by
+  have h2 := funcBegin?_print n args laa isAsync hn ha
+  obtain ⟨c, r, rfl, hc, hw⟩ := isIdent_cases hn
+  have h1 : assign? (asyncL isAsync ++ ("function ".toList ++ ((c :: r) ++ ('(' :: (argsL args ++
+        (laaL laa ++ [')', ':'])))))) = none := by
+    cases isAsync
+    · exact assign?_kw (k := "function".toList) _ (by decide) (idStart_not_space hc) (by rintro rfl; exact absurd hc (by decide))
+    · exact assign?_kw (k := "async".toList) (c := 'f') _ (by decide) (by decide) (by decide)
+  unfold shapeS
+  rw [h1, h2]; rfl
+
+theorem shapeS_if {c : Char} (e : Chars) (hs : isSpace c = false) (hc : c ≠ '=') :
+    shapeS ("if ".toList ++ ((c :: e) ++ [':'])) = .ifBegin 3 (c :: e) := by
+  have h1 : assign? ('i' :: 'f' :: ' ' :: c :: (e ++ [':'])) = none :=
+    assign?_kw (k := "if".toList) (e ++ [':']) (by decide) hs hc
+  have h4 : kwExprColon? "if" .ifBegin ('i' :: 'f' :: ' ' :: c :: (e ++ [':'])) = some (.ifBegin 3 (c :: e)) := by
+    have : keyword? "if" ('i' :: 'f' :: ' ' :: c :: (e ++ [':'])) = some (' ' :: ((c :: e) ++ [':'])) := rfl
+    simp only [kwExprColon?, this, exprColon?_print e hs]; rfl
+  show shapeS ('i' :: 'f' :: ' ' :: c :: (e ++ [':'])) = _
+  unfold shapeS
+  rw [h1, h4]; rfl
+
+theorem shapeS_elif {c : Char} (e : Chars) (hs : isSpace c = false) (hc : c ≠ '=') :
+    shapeS ("elif ".toList ++ ((c :: e) ++ [':'])) = .elif 5 (c :: e) := by
+  have h1 : assign? ('e' :: 'l' :: 'i' :: 'f' :: ' ' :: c :: (e ++ [':'])) = none :=
+    assign?_kw (k := "elif".toList) (e ++ [':']) (by decide) hs hc
+  have h4 : kwExprColon? "elif" .elif ('e' :: 'l' :: 'i' :: 'f' :: ' ' :: c :: (e ++ [':'])) = some (.elif 5 (c :: e)) := by
+    have : keyword? "elif" ('e' :: 'l' :: 'i' :: 'f' :: ' ' :: c :: (e ++ [':'])) = some (' ' :: ((c :: e) ++ [':'])) := rfl
+    simp only [kwExprColon?, this, exprColon?_print e hs]; rfl
+  show shapeS ('e' :: 'l' :: 'i' :: 'f' :: ' ' :: c :: (e ++ [':'])) = _
+  unfold shapeS
+  rw [h1, h4]; rfl
+
+theorem shapeS_while {c : Char} (e : Chars) (hs : isSpace c = false) (hc : c ≠ '=') :
+    shapeS ("while ".toList ++ ((c :: e) ++ [':'])) = .whileBegin 6 (c :: e) := by
+  have h1 : assign? ('w' :: 'h' :: 'i' :: 'l' :: 'e' :: ' ' :: c :: (e ++ [':'])) = none :=
+    assign?_kw (k := "while".toList) (e ++ [':']) (by decide) hs hc
+  have h4 : kwExprColon? "while" .whileBegin ('w' :: 'h' :: 'i' :: 'l' :: 'e' :: ' ' :: c :: (e ++ [':'])) = some (.whileBegin 6 (c :: e)) := by
+    have : keyword? "while" ('w' :: 'h' :: 'i' :: 'l' :: 'e' :: ' ' :: c :: (e ++ [':'])) = some (' ' :: ((c :: e) ++ [':'])) := rfl
+    simp only [kwExprColon?, this, exprColon?_print e hs]; rfl
+  show shapeS ('w' :: 'h' :: 'i' :: 'l' :: 'e' :: ' ' :: c :: (e ++ [':'])) = _
+  unfold shapeS
+  rw [h1, h4]; rfl
+
+/-- ` in E:` after the loop variable(s) -/
+theorem forTail_print {c : Char} (e : Chars) (_hs : isSpace c = false) :
+    ws1? (" in ".toList ++ ((c :: e) ++ [':'])) = some ('i' :: 'n' :: ' ' :: ((c :: e) ++ [':'])) ∧
+    keyword? "in" ('i' :: 'n' :: ' ' :: ((c :: e) ++ [':'])) = some (' ' :: ((c :: e) ++ [':'])) :=
+  ⟨ws1?_sp_ns _ (by decide), rfl⟩
+
+theorem forIndex_print (i : Option Name) (T : Chars) (hi : ∀ x ∈ i, isIdent (nameL x) = true)
+    (hT : ∃ T', T = ' ' :: 'i' :: T') :
+    C06.forIndex (ixL i ++ T) = (i.map nameL, T) := by
+  obtain ⟨T', rfl⟩ := hT
+  unfold C06.forIndex
+  cases i with
+  | none =>
+    have e1 : lstripL (ixL none ++ ' ' :: 'i' :: T') = 'i' :: T' := by
+      show lstripL (' ' :: 'i' :: T') = _
+      rw [lstripL_sp]; exact lstripL_cons_ns _ (by decide)
+    rw [e1]
+    rfl
+  | some x =>
+    have hx := hi x (by simp)
+    obtain ⟨cx, rx, hnx, hcx, hwx⟩ := isIdent_cases hx
+    have e1 : lstripL (ixL (some x) ++ ' ' :: 'i' :: T') = ',' :: ' ' :: (nameL x ++ ' ' :: 'i' :: T') :=
+      lstripL_cons_ns _ (by decide)
+    have e2 : lstripL (' ' :: (nameL x ++ ' ' :: 'i' :: T')) = nameL x ++ ' ' :: 'i' :: T' := by
+      rw [lstripL_sp, hnx]; exact lstripL_cons_ns _ (idStart_not_space hcx)
+    have hidx : ident? (nameL x ++ ' ' :: 'i' :: T') = some (nameL x, ' ' :: 'i' :: T') :=
+      ident?_append hx (by simp; decide)
+    simp only [e1, e2, hidx, Option.map_some]
+
+theorem shapeS_for {v : Chars} (i : Option Name) {c : Char} (e : Chars) (hv : isIdent v = true)
+    (hi : ∀ x ∈ i, isIdent (nameL x) = true) (hs : isSpace c = false) :
+    ∃ off, shapeS ("for ".toList ++ (v ++ (ixL i ++ (" in ".toList ++ ((c :: e) ++ [':']))))) =
+      .forBegin v (i.map nameL) off (c :: e) := by
+  obtain ⟨c0, r0, rfl, hc0, hw0⟩ := isIdent_cases hv
+  have hc0s := idStart_not_space hc0
+  have hfi := forIndex_print i (" in ".toList ++ ((c :: e) ++ [':'])) hi ⟨_, rfl⟩
+  have hTh : (ixL i ++ (" in ".toList ++ ((c :: e) ++ [':']))).head?.all (fun x => !isWord x) = true := by
+    cases i <;> simp [ixL] <;> decide
+  obtain ⟨t1, t2⟩ := forTail_print e hs
+  generalize ixL i ++ (" in ".toList ++ ((c :: e) ++ [':'])) = T at *
+  have h1 : assign? ('f' :: 'o' :: 'r' :: ' ' :: c0 :: (r0 ++ T)) = none :=
+    assign?_kw (k := "for".toList) (r0 ++ T) (by decide) hc0s (by rintro rfl; exact absurd hc0 (by decide))
+  have hid : ident? (c0 :: (r0 ++ T)) = some (c0 :: r0, T) := ident?_append hv hTh
+  have k1 : keyword? "for" ('f' :: 'o' :: 'r' :: ' ' :: c0 :: (r0 ++ T)) = some (' ' :: c0 :: (r0 ++ T)) := rfl
+  have h10 : ∃ off, for? ('f' :: 'o' :: 'r' :: ' ' :: c0 :: (r0 ++ T)) = some (.forBegin (c0 :: r0) (i.map nameL) off (c :: e)) := by
+    rw [C06.for?_eq]
+    simp only [k1, ws1?_sp_ns _ hc0s, hid, hfi, t1, t2, exprColon?_print e hs]
+    exact ⟨_, rfl⟩
+  obtain ⟨off, h10⟩ := h10
+  refine ⟨off, ?_⟩
+  show shapeS ('f' :: 'o' :: 'r' :: ' ' :: c0 :: (r0 ++ T)) = _
+  unfold shapeS
+  rw [h1, h10]; rfl
+
+theorem shapeS_label {n : Chars} (hn : isIdent n = true) (hel : n ≠ "else".toList) :
+    shapeS (n ++ [':']) = .label n := by
+  have hw := isIdent_word hn
+  have hcw : isWord ':' = false := by decide
+  have hcs : isSpace ':' = false := by decide
+  have hkw : ∀ kw ∈ ["endfunction", "if", "elif", "endif", "while", "endwhile", "endfor", "break", "continue"],
+      ∀ x ∈ String.toList kw, isWord x = true := by decide
+  unfold shapeS
+  rw [assign?_wordc (rest := []) hcw hcs hn (by decide), funcBegin?_wordc hw hcw hcs,
+    kwOnly?_wordc hw hcw hcs (hkw "endfunction" (by simp)), kwExprColon?_wordc hw hcw hcs (hkw "if" (by simp)),
+    kwExprColon?_wordc hw hcw hcs (hkw "elif" (by simp)), else?_wordc hw hcw hcs (fun _ => hel),
+    kwOnly?_wordc hw hcw hcs (hkw "endif" (by simp)), kwExprColon?_wordc hw hcw hcs (hkw "while" (by simp)),
+    kwOnly?_wordc hw hcw hcs (hkw "endwhile" (by simp)), for?_wordc hw hcw hcs,
+    kwOnly?_wordc hw hcw hcs (hkw "endfor" (by simp)), kwOnly?_wordc hw hcw hcs (hkw "break" (by simp)),
+    kwOnly?_wordc hw hcw hcs (hkw "continue" (by simp)), label?_print hn]
+  rfl
+
+/-- a call statement `f(…)` is what is left when every pattern failed -/
+theorem shapeS_call {t : Chars} (h : CallTextOK t = true) : shapeS t = .exprStmt := by
+  simp only [CallTextOK, Bool.and_eq_true, beq_iff_eq] at h
+  obtain ⟨⟨hn, hp⟩, hl⟩ := h
+  have hsplit : t = t.takeWhile isWord ++ t.dropWhile isWord := (List.takeWhile_append_dropWhile).symm
+  generalize t.takeWhile isWord = w at hn hsplit
+  cases hd : t.dropWhile isWord with
+  | nil => rw [hd] at hp; simp at hp
+  | cons c rest =>
+    rw [hd] at hp hsplit
+    simp only [List.head?_cons, Option.some.injEq] at hp
+    subst hp
+    have hj : rest.getLast? = some ')' := by
+      rw [hsplit] at hl
+      cases rest with
+      | nil => simp at hl
+      | cons a r => simpa [List.getLast?_append, List.getLast?_cons_cons] using hl
+    rw [hsplit]
+    have hw := isIdent_word hn
+    have hcw : isWord '(' = false := by decide
+    have hcs : isSpace '(' = false := by decide
+    have hkw : ∀ kw ∈ ["endfunction", "if", "elif", "endif", "while", "endwhile", "endfor", "break", "continue"],
+        ∀ x ∈ String.toList kw, isWord x = true := by decide
+    unfold shapeS
+    rw [assign?_wordc hcw hcs hn (by decide), funcBegin?_wordc hw hcw hcs,
+      kwOnly?_wordc hw hcw hcs (hkw "endfunction" (by simp)), kwExprColon?_wordc hw hcw hcs (hkw "if" (by simp)),
+      kwExprColon?_wordc hw hcw hcs (hkw "elif" (by simp)), else?_wordc hw hcw hcs (fun h => absurd h (by decide)),
+      kwOnly?_wordc hw hcw hcs (hkw "endif" (by simp)), kwExprColon?_wordc hw hcw hcs (hkw "while" (by simp)),
+      kwOnly?_wordc hw hcw hcs (hkw "endwhile" (by simp)), for?_wordc hw hcw hcs,
+      kwOnly?_wordc hw hcw hcs (hkw "endfor" (by simp)), kwOnly?_wordc hw hcw hcs (hkw "break" (by simp)),
+      kwOnly?_wordc hw hcw hcs (hkw "continue" (by simp)), label?_wordc hcw hcs hn (by decide),
+      jump?_wordc hw hcw hcs (fun _ => hj), return?_wordc hw hcw hcs, include?_wordc hw hcw hcs]
+    rfl
+
+theorem shapeS_jump {n : Chars} (hn : isIdent n = true) : shapeS ("jump ".toList ++ n) = .jump n none := by
+  obtain ⟨c, r, rfl, hc, hw⟩ := isIdent_cases hn
+  have hcs := idStart_not_space hc
+  have h1 : assign? ('j' :: 'u' :: 'm' :: 'p' :: ' ' :: c :: r) = none :=
+    assign?_kw (k := "jump".toList) r (by decide) hcs (by rintro rfl; exact absurd hc (by decide))
+  have h14 : label? ('j' :: 'u' :: 'm' :: 'p' :: ' ' :: c :: r) = none :=
+    label?_kw (k := "jump".toList) r (by decide) hcs (by rintro rfl; exact absurd hc (by decide))
+  have h15 : jump? ('j' :: 'u' :: 'm' :: 'p' :: ' ' :: c :: r) = some (.jump (c :: r) none) := by
+    have k : keyword? "jump" ('j' :: 'u' :: 'm' :: 'p' :: ' ' :: c :: r) = some (' ' :: c :: r) := rfl
+    simp only [jump?, k, wsNameEnd?_print hn]
+  show shapeS ('j' :: 'u' :: 'm' :: 'p' :: ' ' :: c :: r) = _
+  unfold shapeS
+  rw [h1, h14, h15]; rfl
+
+theorem shapeS_jumpif {n : Chars} (e : Chars) (hn : isIdent n = true) (he : e ≠ []) :
+    ∃ off, shapeS ("jumpif (".toList ++ (e ++ (')' :: ' ' :: n))) = .jump n (some (off, e)) := by
+  have h1 : assign? ('j' :: 'u' :: 'm' :: 'p' :: 'i' :: 'f' :: ' ' :: '(' :: (e ++ (')' :: ' ' :: n))) = none :=
+    assign?_kw (k := "jumpif".toList) _ (by decide) (by decide) (by decide)
+  have h14 : label? ('j' :: 'u' :: 'm' :: 'p' :: 'i' :: 'f' :: ' ' :: '(' :: (e ++ (')' :: ' ' :: n))) = none :=
+    label?_kw (k := "jumpif".toList) _ (by decide) (by decide) (by decide)
+  have h15 : ∃ off, jump? ('j' :: 'u' :: 'm' :: 'p' :: 'i' :: 'f' :: ' ' :: '(' :: (e ++ (')' :: ' ' :: n))) = some (.jump n (some (off, e))) := by
+    have k : keyword? "jump" ('j' :: 'u' :: 'm' :: 'p' :: 'i' :: 'f' :: ' ' :: '(' :: (e ++ (')' :: ' ' :: n))) = some ('i' :: 'f' :: ' ' :: '(' :: (e ++ (')' :: ' ' :: n))) := rfl
+    have k2 : keyword? "if" ('i' :: 'f' :: ' ' :: '(' :: (e ++ (')' :: ' ' :: n))) = some (' ' :: '(' :: (e ++ (')' :: ' ' :: n))) := rfl
+    have w1 : wsNameEnd? ('i' :: 'f' :: ' ' :: '(' :: (e ++ (')' :: ' ' :: n))) = none := rfl
+    have l1 : lstripL (' ' :: '(' :: (e ++ (')' :: ' ' :: n))) = '(' :: (e ++ (')' :: ' ' :: n)) := by
+      rw [lstripL_sp]; exact lstripL_cons_ns _ (by decide)
+    have he' : e.isEmpty = false := by cases e <;> simp_all
+    simp only [jump?, k, k2, w1, l1, splitLastParen_print e hn, he', wsNameEnd?_print hn]
+    exact ⟨_, rfl⟩
+  obtain ⟨off, h15⟩ := h15
+  refine ⟨off, ?_⟩
+  show shapeS ('j' :: 'u' :: 'm' :: 'p' :: 'i' :: 'f' :: ' ' :: '(' :: (e ++ (')' :: ' ' :: n))) = _
+  unfold shapeS
+  rw [h1, h14, h15]; rfl
+
+theorem shapeS_return {c : Char} (e : Chars) (hs : isSpace c = false) (h1c : c ≠ '=') (h2c : c ≠ ':') :
+    ∃ off, shapeS ("return ".toList ++ (c :: e)) = .ret (some (off, c :: e)) := by
+  have h1 : assign? ('r' :: 'e' :: 't' :: 'u' :: 'r' :: 'n' :: ' ' :: c :: e) = none :=
+    assign?_kw (k := "return".toList) _ (by decide) hs h1c
+  have h14 : label? ('r' :: 'e' :: 't' :: 'u' :: 'r' :: 'n' :: ' ' :: c :: e) = none :=
+    label?_kw (k := "return".toList) _ (by decide) hs h2c
+  have h16 : ∃ off, return? ('r' :: 'e' :: 't' :: 'u' :: 'r' :: 'n' :: ' ' :: c :: e) = some (.ret (some (off, c :: e))) := by
+    have k : keyword? "return" ('r' :: 'e' :: 't' :: 'u' :: 'r' :: 'n' :: ' ' :: c :: e) = some (' ' :: c :: e) := rfl
+    have l1 : lstripL (' ' :: c :: e) = c :: e := by rw [lstripL_sp]; exact lstripL_cons_ns _ hs
+    have a1 : allSpace (' ' :: c :: e) = false := by simp [allSpace, hs]
+    simp only [return?, k, a1, l1, show isSpace ' ' = true from by decide]
+    exact ⟨_, rfl⟩
+  obtain ⟨off, h16⟩ := h16
+  refine ⟨off, ?_⟩
+  show shapeS ('r' :: 'e' :: 't' :: 'u' :: 'r' :: 'n' :: ' ' :: c :: e) = _
+  unfold shapeS
+  rw [h1, h14, h16]; rfl
+
+theorem shapeS_include_quote (u : Chars) :
+    shapeS ("include '".toList ++ (escapeUrl u ++ ['\''])) = .include u false := by
+  have h1 : assign? ('i' :: 'n' :: 'c' :: 'l' :: 'u' :: 'd' :: 'e' :: ' ' :: '\'' :: (escapeUrl u ++ ['\''])) = none :=
+    assign?_kw (k := "include".toList) _ (by decide) (by decide) (by decide)
+  have h14 : label? ('i' :: 'n' :: 'c' :: 'l' :: 'u' :: 'd' :: 'e' :: ' ' :: '\'' :: (escapeUrl u ++ ['\''])) = none :=
+    label?_kw (k := "include".toList) _ (by decide) (by decide) (by decide)
+  have h17 : include? ('i' :: 'n' :: 'c' :: 'l' :: 'u' :: 'd' :: 'e' :: ' ' :: '\'' :: (escapeUrl u ++ ['\''])) = some (.include u false) := by
+    have k : keyword? "include" ('i' :: 'n' :: 'c' :: 'l' :: 'u' :: 'd' :: 'e' :: ' ' :: '\'' :: (escapeUrl u ++ ['\''])) = some (' ' :: '\'' :: (escapeUrl u ++ ['\''])) := rfl
+    have r1 := reverse_dropWhile_snoc_ns (escapeUrl u) (show isSpace '\'' = false from by decide)
+    obtain ⟨q1, _, q3⟩ := escapeUrl_spec u
+    simp only [include?, k, ws1?_sp_ns _ (show isSpace '\'' = false from by decide), r1, List.reverse_reverse, q1, q3, if_true]
+  show shapeS ('i' :: 'n' :: 'c' :: 'l' :: 'u' :: 'd' :: 'e' :: ' ' :: '\'' :: (escapeUrl u ++ ['\''])) = _
+  unfold shapeS
+  rw [h1, h14, h17]; rfl
+
+theorem shapeS_include_system (u : Chars) (hu : u.contains '>' = false) :
+    shapeS ("include <".toList ++ (u ++ ['>'])) = .include u true := by
+  have h1 : assign? ('i' :: 'n' :: 'c' :: 'l' :: 'u' :: 'd' :: 'e' :: ' ' :: '<' :: (u ++ ['>'])) = none :=
+    assign?_kw (k := "include".toList) _ (by decide) (by decide) (by decide)
+  have h14 : label? ('i' :: 'n' :: 'c' :: 'l' :: 'u' :: 'd' :: 'e' :: ' ' :: '<' :: (u ++ ['>'])) = none :=
+    label?_kw (k := "include".toList) _ (by decide) (by decide) (by decide)
+  have h17 : include? ('i' :: 'n' :: 'c' :: 'l' :: 'u' :: 'd' :: 'e' :: ' ' :: '<' :: (u ++ ['>'])) = some (.include u true) := by
+    have k : keyword? "include" ('i' :: 'n' :: 'c' :: 'l' :: 'u' :: 'd' :: 'e' :: ' ' :: '<' :: (u ++ ['>'])) = some (' ' :: '<' :: (u ++ ['>'])) := rfl
+    have hw : ∀ x ∈ u, (x != '>') = true := by
+      intro x hx
+      cases h : x != '>' with
+      | true => rfl
+      | false => simp at h; subst h; simp at hu; exact absurd hx hu
+    obtain ⟨t1, t2⟩ := takeWhile_all (fun x => x != '>') u ['>'] hw (by simp)
+    simp only [include?, k, ws1?_sp_ns _ (show isSpace '<' = false from by decide), t1, t2]
+    rfl
+  show shapeS ('i' :: 'n' :: 'c' :: 'l' :: 'u' :: 'd' :: 'e' :: ' ' :: '<' :: (u ++ ['>'])) = _
+  unfold shapeS
+  rw [h1, h14, h17]; rfl
+
+/-- the one-word lines -/
+theorem shapeS_keywords :
+    shapeS "endfunction".toList = .funcEnd ∧ shapeS "else:".toList = .else_ ∧ shapeS "endif".toList = .endif ∧
+    shapeS "endwhile".toList = .endwhile ∧ shapeS "endfor".toList = .endfor ∧ shapeS "break".toList = .break_ ∧
+    shapeS "continue".toList = .continue_ ∧ shapeS "return".toList = .ret none := by decide
+
+/-! ## the whole cascade on a printed line -/
+
+/-- the raw match of the cascade on the printed line (`off` = start of the expression group, where there is one) -/
+def expShape (pe : Expr → Chars) : Line → Nat → Shape
+  | .assign n e, off => .assign (nameL n) off (pe e)
+  | .funcBegin n args laa a, _ => .funcBegin (nameL n) (args.map nameL) laa a
+  | .funcEnd, _ => .funcEnd
+  | .ifBegin c, off => .ifBegin off (pe c)
+  | .elif c, off => .elif off (pe c)
+  | .else_, _ => .else_
+  | .endif, _ => .endif
+  | .whileBegin c, off => .whileBegin off (pe c)
+  | .endwhile, _ => .endwhile
+  | .forBegin v i e, off => .forBegin (nameL v) (i.map nameL) off (pe e)
+  | .endfor, _ => .endfor
+  | .break_, _ => .break_
+  | .continue_, _ => .continue_
+  | .label n, _ => .label (nameL n)
+  | .jump n none, _ => .jump (nameL n) none
+  | .jump n (some c), off => .jump (nameL n) (some (off, pe c))
+  | .ret none, _ => .ret none
+  | .ret (some e), off => .ret (some (off, pe e))
+  | .include url sys, _ => .include url.toList sys
+  | .exprStmt _, _ => .exprStmt
+
+theorem expShape_shift (pe : Expr → Chars) (l : Line) (off k : Nat) :
+    (expShape pe l off).shift k = expShape pe l (off + k) := by
+  cases l with
+  | jump n c => cases c <;> rfl
+  | ret e => cases e <;> rfl
+  | _ => rfl
+
+/-- what `ExprTextOK` says -/
+theorem exprTextOK_facts {t : Chars} (h : ExprTextOK t = true) :
+    '\n' ∉ t ∧ (∃ c e, t = c :: e ∧ isSpace c = false ∧ c ≠ '=' ∧ c ≠ ':' ∧ c ≠ '#') ∧
+    (∃ d, t.getLast? = some d ∧ isSpace d = false ∧ d ≠ '\\') := by
+  simp only [ExprTextOK, Bool.and_eq_true, Bool.not_eq_true', List.contains_eq_mem, decide_eq_false_iff_not] at h
+  obtain ⟨⟨h1, h2⟩, h3⟩ := h
+  refine ⟨h1, ?_, ?_⟩
+  · cases t with
+    | nil => simp at h2
+    | cons c e =>
+      simp only [List.head?_cons, headOK, Bool.and_eq_true, Bool.not_eq_true', bne_iff_ne, ne_eq] at h2
+      exact ⟨c, e, rfl, h2.1.1.1, h2.1.1.2, h2.1.2, h2.2⟩
+  · cases hl : t.getLast? with
+    | none => rw [hl] at h3; simp at h3
+    | some d =>
+      rw [hl] at h3
+      simp only [lastOK, Bool.and_eq_true, Bool.not_eq_true', bne_iff_ne, ne_eq] at h3
+      exact ⟨d, rfl, h3.1, h3.2⟩
+
+/-- what `LineOK` says about the parts of a line -/
+theorem lineOK_names {pe : Expr → Chars} {l : Line} (h : LineOK pe l = true) : ∀ n ∈ names l, NameOK n = true := by
+  simp only [LineOK, Bool.and_eq_true, List.all_eq_true] at h; exact h.1.1
+
+theorem lineOK_exprs {pe : Expr → Chars} {l : Line} (h : LineOK pe l = true) : ∀ e ∈ exprs l, ExprTextOK (pe e) = true := by
+  simp only [LineOK, Bool.and_eq_true, List.all_eq_true] at h; exact h.1.2
+
+theorem lineOK_special {pe : Expr → Chars} {l : Line} (h : LineOK pe l = true) :
+    (match l with
+     | .exprStmt e => CallTextOK (pe e)
+     | .label n => nameL n != "else".toList
+     | .include url sys => !url.toList.contains '\n' && (!sys || !url.toList.contains '>')
+     | _ => true) = true := by
+  simp only [LineOK, Bool.and_eq_true] at h
+  cases l <;> first | exact h.2 | rfl
+
+/-- **the cascade on a printed line** -/
+theorem shapeS_printLine (pe : Expr → Chars) (l : Line) (h : LineOK pe l = true) :
+    ∃ off, shapeS (printLineL pe l) = expShape pe l off := by
+  have hn := lineOK_names h
+  have he := lineOK_exprs h
+  have hsp := lineOK_special h
+  obtain ⟨k1, k2, k3, k4, k5, k6, k7, k8⟩ := shapeS_keywords
+  cases l with
+  | assign n e =>
+    obtain ⟨_, ⟨c, r, hcr, hs, -, -, -⟩, -⟩ := exprTextOK_facts (he e (by simp [PrintScript.exprs]))
+    obtain ⟨off, this⟩ := shapeS_assign r (nameOK_ident (hn n (by simp [PrintScript.names]))) hs
+    refine ⟨off, ?_⟩
+    show shapeS (nameL n ++ (' ' :: '=' :: ' ' :: pe e)) = .assign (nameL n) off (pe e)
+    rw [hcr]; exact this
+  | funcBegin n args laa a =>
+    exact ⟨0, shapeS_func (nameL n) args laa a (nameOK_ident (hn n (by simp [PrintScript.names])))
+      (fun x hx => nameOK_ident (hn x (by simp [PrintScript.names, hx])))⟩
+  | funcEnd => exact ⟨0, k1⟩
+  | ifBegin c =>
+    obtain ⟨_, ⟨c0, r, hcr, hs, h1, -, -⟩, -⟩ := exprTextOK_facts (he c (by simp [PrintScript.exprs]))
+    refine ⟨3, ?_⟩
+    show shapeS ("if ".toList ++ (pe c ++ [':'])) = .ifBegin 3 (pe c)
+    rw [hcr]; exact shapeS_if r hs h1
+  | elif c =>
+    obtain ⟨_, ⟨c0, r, hcr, hs, h1, -, -⟩, -⟩ := exprTextOK_facts (he c (by simp [PrintScript.exprs]))
+    refine ⟨5, ?_⟩
+    show shapeS ("elif ".toList ++ (pe c ++ [':'])) = .elif 5 (pe c)
+    rw [hcr]; exact shapeS_elif r hs h1
+  | else_ => exact ⟨0, k2⟩
+  | endif => exact ⟨0, k3⟩
+  | whileBegin c =>
+    obtain ⟨_, ⟨c0, r, hcr, hs, h1, -, -⟩, -⟩ := exprTextOK_facts (he c (by simp [PrintScript.exprs]))
+    refine ⟨6, ?_⟩
+    show shapeS ("while ".toList ++ (pe c ++ [':'])) = .whileBegin 6 (pe c)
+    rw [hcr]; exact shapeS_while r hs h1
+  | endwhile => exact ⟨0, k4⟩
+  | forBegin v i e =>
+    obtain ⟨_, ⟨c0, r, hcr, hs, -, -, -⟩, -⟩ := exprTextOK_facts (he e (by simp [PrintScript.exprs]))
+    obtain ⟨off, this⟩ := shapeS_for i r (nameOK_ident (hn v (by simp [PrintScript.names])))
+      (fun x hx => nameOK_ident (hn x (by simp [PrintScript.names]; exact .inr hx))) hs
+    refine ⟨off, ?_⟩
+    show shapeS ("for ".toList ++ (nameL v ++ (ixL i ++ (" in ".toList ++ (pe e ++ [':']))))) =
+      .forBegin (nameL v) (i.map nameL) off (pe e)
+    rw [hcr]; exact this
+  | endfor => exact ⟨0, k5⟩
+  | break_ => exact ⟨0, k6⟩
+  | continue_ => exact ⟨0, k7⟩
+  | label n =>
+    refine ⟨0, shapeS_label (nameOK_ident (hn n (by simp [PrintScript.names]))) ?_⟩
+    simpa using hsp
+  | jump n c =>
+    have hi := nameOK_ident (hn n (by simp [PrintScript.names]))
+    cases c with
+    | none => exact ⟨0, shapeS_jump hi⟩
+    | some c =>
+      obtain ⟨_, ⟨c0, r, hcr, -⟩, -⟩ := exprTextOK_facts (he c (by simp [PrintScript.exprs]))
+      exact shapeS_jumpif (pe c) hi (by rw [hcr]; simp)
+  | ret e =>
+    cases e with
+    | none => exact ⟨0, k8⟩
+    | some e =>
+      obtain ⟨_, ⟨c0, r, hcr, hs, h1, h2, -⟩, -⟩ := exprTextOK_facts (he e (by simp [PrintScript.exprs]))
+      obtain ⟨off, this⟩ := shapeS_return r hs h1 h2
+      refine ⟨off, ?_⟩
+      show shapeS ("return ".toList ++ pe e) = .ret (some (off, pe e))
+      rw [hcr]; exact this
+  | «include» url sys =>
+    cases sys with
+    | false => exact ⟨0, shapeS_include_quote url.toList⟩
+    | true =>
+      refine ⟨0, shapeS_include_system url.toList ?_⟩
+      have : ¬'\n' ∈ url.toList ∧ ¬'>' ∈ url.toList := by simpa using hsp
+      simpa using this.2
+  | exprStmt e => exact ⟨0, shapeS_call hsp⟩
+
+/-! ## the text of a printed line: first and last character, no line feed -/
+
+/-- a good first character of a line: not a blank, not `#` -/
+def HeadGood (t : Chars) : Prop := ∃ c r, t = c :: r ∧ isSpace c = false ∧ c ≠ '#'
+/-- a good last character of a line: not a blank (`'\r'` is one), not a backslash -/
+def LastGood (t : Chars) : Prop := ∃ d, t.getLast? = some d ∧ isSpace d = false ∧ d ≠ '\\'
+
+theorem HeadGood.append {a : Chars} (b : Chars) (h : HeadGood a) : HeadGood (a ++ b) := by
+  obtain ⟨c, r, rfl, h1, h2⟩ := h; exact ⟨c, r ++ b, rfl, h1, h2⟩
+
+theorem LastGood.append (a : Chars) {b : Chars} (h : LastGood b) : LastGood (a ++ b) := by
+  obtain ⟨d, h0, h1, h2⟩ := h
+  refine ⟨d, ?_, h1, h2⟩
+  obtain ⟨b0, rfl⟩ := List.getLast?_eq_some_iff.mp h0
+  rw [← List.append_assoc]; simp
+
+theorem LastGood.cons (a : Char) {b : Chars} (h : LastGood b) : LastGood (a :: b) := LastGood.append [a] h
+
+theorem headGood_ident {n : Chars} (h : isIdent n = true) : HeadGood n := by
+  obtain ⟨c, r, rfl, hc, -⟩ := isIdent_cases h
+  exact ⟨c, r, rfl, idStart_not_space hc, by rintro rfl; exact absurd hc (by decide)⟩
+
+theorem lastGood_ident {n : Chars} (h : isIdent n = true) : LastGood n := by
+  have hw := isIdent_word h
+  obtain ⟨c, r, rfl, -, -⟩ := isIdent_cases h
+  cases hl : (c :: r).getLast? with
+  | none => simp at hl
+  | some d =>
+    have hd := hw d (List.mem_of_getLast? hl)
+    exact ⟨d, hl, word_not_space hd, by rintro rfl; exact absurd hd (by decide)⟩
+
+theorem noNl_ident {n : Chars} (h : isIdent n = true) : '\n' ∉ n := fun hm =>
+  absurd (isIdent_word h _ hm) (by decide)
+
+theorem noNl_moreArgs : ∀ (as : List Name), (∀ a ∈ as, isIdent (nameL a) = true) → '\n' ∉ moreArgsL as
+  | [], _ => by simp [moreArgsL]
+  | a :: as, h => by
+      have h1 := noNl_ident (h a (by simp))
+      have h2 := noNl_moreArgs as (fun x hx => h x (List.mem_cons_of_mem _ hx))
+      simp [moreArgsL, h1, h2]
+
+theorem noNl_args (as : List Name) (h : ∀ a ∈ as, isIdent (nameL a) = true) : '\n' ∉ argsL as := by
+  cases as with
+  | nil => simp [argsL]
+  | cons a as =>
+    have h1 := noNl_ident (h a (by simp))
+    have h2 := noNl_moreArgs as (fun x hx => h x (List.mem_cons_of_mem _ hx))
+    simp [argsL, h1, h2]
+
+theorem noNl_escapeUrl : ∀ u : Chars, '\n' ∉ u → '\n' ∉ escapeUrl u
+  | [], _ => by simp [escapeUrl]
+  | c :: r, h => by
+      have hc : '\n' ≠ c := by intro e; apply h; rw [e]; simp
+      have ih := noNl_escapeUrl r (fun hm => h (List.mem_cons_of_mem _ hm))
+      simp only [escapeUrl]
+      split <;> simp [hc, ih]
+
+theorem headGood_exprText {t : Chars} (h : ExprTextOK t = true) : HeadGood t := by
+  obtain ⟨-, ⟨c, r, rfl, hs, -, -, hh⟩, -⟩ := exprTextOK_facts h; exact ⟨c, r, rfl, hs, hh⟩
+
+theorem lastGood_exprText {t : Chars} (h : ExprTextOK t = true) : LastGood t := (exprTextOK_facts h).2.2
+
+theorem noNl_append {a b : Chars} (ha : '\n' ∉ a) (hb : '\n' ∉ b) : '\n' ∉ a ++ b := by simp [ha, hb]
+theorem noNl_cons {c : Char} {b : Chars} (hc : '\n' ≠ c) (hb : '\n' ∉ b) : '\n' ∉ c :: b := by simp [hc, hb]
+
+/-- **shape of a printed line**: it starts with a character that is neither a blank nor `#`, ends with one that is
+neither a blank nor a backslash, and contains no line feed -/
+theorem printLineL_text (pe : Expr → Chars) (l : Line) (h : LineOK pe l = true) :
+    HeadGood (printLineL pe l) ∧ LastGood (printLineL pe l) ∧ '\n' ∉ printLineL pe l := by
+  have hn := lineOK_names h
+  have he := lineOK_exprs h
+  have hsp := lineOK_special h
+  have colon : ∀ x : Chars, LastGood (x ++ [':']) := fun x => LastGood.append x ⟨':', rfl, by decide, by decide⟩
+  cases l with
+  | assign n e =>
+    have hi := nameOK_ident (hn n (by simp [PrintScript.names]))
+    have hx := he e (by simp [PrintScript.exprs])
+    show HeadGood (nameL n ++ (' ' :: '=' :: ' ' :: pe e)) ∧ LastGood (nameL n ++ (' ' :: '=' :: ' ' :: pe e)) ∧
+      '\n' ∉ nameL n ++ (' ' :: '=' :: ' ' :: pe e)
+    refine ⟨(headGood_ident hi).append _, LastGood.append _ (LastGood.cons _ (LastGood.cons _ (LastGood.cons _ (lastGood_exprText hx)))), ?_⟩
+    simp [noNl_ident hi, (exprTextOK_facts hx).1]
+  | funcBegin n args laa a =>
+    have hi := nameOK_ident (hn n (by simp [PrintScript.names]))
+    have ha : ∀ x ∈ args, isIdent (nameL x) = true := fun x hx => nameOK_ident (hn x (by simp [PrintScript.names, hx]))
+    refine ⟨?_, ?_, ?_⟩
+    · cases a
+      · exact ⟨'f', _, rfl, by decide, by decide⟩
+      · exact ⟨'a', _, rfl, by decide, by decide⟩
+    · show LastGood (asyncL a ++ ("function ".toList ++ (nameL n ++ ('(' :: (argsL args ++ (laaL laa ++ [')', ':']))))))
+      exact LastGood.append _ (LastGood.append _ (LastGood.append _ (LastGood.cons _ (LastGood.append _
+        (LastGood.append _ ⟨':', rfl, by decide, by decide⟩)))))
+    · have h1 : '\n' ∉ asyncL a := by cases a <;> decide
+      have h2 : '\n' ∉ laaL laa := by cases laa <;> decide
+      show '\n' ∉ asyncL a ++ ("function ".toList ++ (nameL n ++ ('(' :: (argsL args ++ (laaL laa ++ [')', ':'])))))
+      have h3 : '\n' ∉ "function ".toList := by decide
+      simp [noNl_ident hi, noNl_args args ha, h1, h2, h3]
+  | funcEnd => exact ⟨⟨'e', _, rfl, by decide, by decide⟩, ⟨'n', rfl, by decide, by decide⟩, by show '\n' ∉ String.toList _; decide⟩
+  | ifBegin c =>
+    have hx := he c (by simp [PrintScript.exprs])
+    refine ⟨⟨'i', _, rfl, by decide, by decide⟩, ?_, ?_⟩
+    · show LastGood ("if ".toList ++ (pe c ++ [':'])); exact LastGood.append _ (colon _)
+    · show '\n' ∉ "if ".toList ++ (pe c ++ [':'])
+      exact noNl_append (by decide) (noNl_append (exprTextOK_facts hx).1 (by decide))
+  | elif c =>
+    have hx := he c (by simp [PrintScript.exprs])
+    refine ⟨⟨'e', _, rfl, by decide, by decide⟩, ?_, ?_⟩
+    · show LastGood ("elif ".toList ++ (pe c ++ [':'])); exact LastGood.append _ (colon _)
+    · show '\n' ∉ "elif ".toList ++ (pe c ++ [':'])
+      exact noNl_append (by decide) (noNl_append (exprTextOK_facts hx).1 (by decide))
+  | else_ => exact ⟨⟨'e', _, rfl, by decide, by decide⟩, ⟨':', rfl, by decide, by decide⟩, by show '\n' ∉ String.toList _; decide⟩
+  | endif => exact ⟨⟨'e', _, rfl, by decide, by decide⟩, ⟨'f', rfl, by decide, by decide⟩, by show '\n' ∉ String.toList _; decide⟩
+  | whileBegin c =>
+    have hx := he c (by simp [PrintScript.exprs])
+    refine ⟨⟨'w', _, rfl, by decide, by decide⟩, ?_, ?_⟩
+    · show LastGood ("while ".toList ++ (pe c ++ [':'])); exact LastGood.append _ (colon _)
+    · show '\n' ∉ "while ".toList ++ (pe c ++ [':'])
+      exact noNl_append (by decide) (noNl_append (exprTextOK_facts hx).1 (by decide))
+  | endwhile => exact ⟨⟨'e', _, rfl, by decide, by decide⟩, ⟨'e', rfl, by decide, by decide⟩, by show '\n' ∉ String.toList _; decide⟩
+  | forBegin v i e =>
+    have hi := nameOK_ident (hn v (by simp [PrintScript.names]))
+    have hx := he e (by simp [PrintScript.exprs])
+    refine ⟨⟨'f', _, rfl, by decide, by decide⟩, ?_, ?_⟩
+    · show LastGood ("for ".toList ++ (nameL v ++ (ixL i ++ (" in ".toList ++ (pe e ++ [':'])))))
+      exact LastGood.append _ (LastGood.append _ (LastGood.append _ (LastGood.append _ (colon _))))
+    · have h1 : '\n' ∉ ixL i := by
+        cases i with
+        | none => simp [ixL]
+        | some x =>
+          have := noNl_ident (nameOK_ident (hn x (by simp [PrintScript.names])))
+          simp [ixL, this]
+      show '\n' ∉ "for ".toList ++ (nameL v ++ (ixL i ++ (" in ".toList ++ (pe e ++ [':']))))
+      exact noNl_append (by decide) (noNl_append (noNl_ident hi) (noNl_append h1 (noNl_append (by decide)
+        (noNl_append (exprTextOK_facts hx).1 (by decide)))))
+  | endfor => exact ⟨⟨'e', _, rfl, by decide, by decide⟩, ⟨'r', rfl, by decide, by decide⟩, by show '\n' ∉ String.toList _; decide⟩
+  | break_ => exact ⟨⟨'b', _, rfl, by decide, by decide⟩, ⟨'k', rfl, by decide, by decide⟩, by show '\n' ∉ String.toList _; decide⟩
+  | continue_ => exact ⟨⟨'c', _, rfl, by decide, by decide⟩, ⟨'e', rfl, by decide, by decide⟩, by show '\n' ∉ String.toList _; decide⟩
+  | label n =>
+    have hi := nameOK_ident (hn n (by simp [PrintScript.names]))
+    exact ⟨(headGood_ident hi).append _, colon _, noNl_append (noNl_ident hi) (by decide)⟩
+  | jump n c =>
+    have hi := nameOK_ident (hn n (by simp [PrintScript.names]))
+    cases c with
+    | none =>
+      exact ⟨⟨'j', _, rfl, by decide, by decide⟩, LastGood.append _ (lastGood_ident hi),
+        noNl_append (by decide) (noNl_ident hi)⟩
+    | some c =>
+      have hx := he c (by simp [PrintScript.exprs])
+      refine ⟨⟨'j', _, rfl, by decide, by decide⟩, ?_, ?_⟩
+      · exact LastGood.append _ (LastGood.append _ (LastGood.cons _ (LastGood.cons _ (lastGood_ident hi))))
+      · show '\n' ∉ "jumpif (".toList ++ (pe c ++ (')' :: ' ' :: nameL n))
+        exact noNl_append (by decide) (noNl_append (exprTextOK_facts hx).1 (noNl_cons (by decide) (noNl_cons (by decide)
+          (noNl_ident hi))))
+  | ret e =>
+    cases e with
+    | none => exact ⟨⟨'r', _, rfl, by decide, by decide⟩, ⟨'n', rfl, by decide, by decide⟩, by show '\n' ∉ String.toList _; decide⟩
+    | some e =>
+      have hx := he e (by simp [PrintScript.exprs])
+      exact ⟨⟨'r', _, rfl, by decide, by decide⟩, LastGood.append _ (lastGood_exprText hx),
+        noNl_append (by decide) (exprTextOK_facts hx).1⟩
+  | «include» url sys =>
+    have hu : ¬'\n' ∈ url.toList := by
+      have h0 : (!url.toList.contains '\n' && (!sys || !url.toList.contains '>')) = true := hsp
+      simp only [Bool.and_eq_true, Bool.not_eq_true', List.contains_eq_mem, decide_eq_false_iff_not] at h0
+      exact h0.1
+    cases sys with
+    | false =>
+      refine ⟨⟨'i', _, rfl, by decide, by decide⟩, ?_, ?_⟩
+      · exact LastGood.append _ (LastGood.append _ ⟨'\'', rfl, by decide, by decide⟩)
+      · exact noNl_append (by decide) (noNl_append (noNl_escapeUrl _ hu) (by decide))
+    | true =>
+      refine ⟨⟨'i', _, rfl, by decide, by decide⟩, ?_, ?_⟩
+      · exact LastGood.append _ (LastGood.append _ ⟨'>', rfl, by decide, by decide⟩)
+      · exact noNl_append (by decide) (noNl_append hu (by decide))
+  | exprStmt e =>
+    have hx := he e (by simp [PrintScript.exprs])
+    exact ⟨headGood_exprText hx, lastGood_exprText hx, (exprTextOK_facts hx).1⟩
 
 end C01
